@@ -30,8 +30,9 @@ def strsOf (j : Json) (k : String) : List String :=
 
 def depOfJson (j : Json) : Dep := { required := getBool j "required", cond := getStr j "cond" }
 
-def svcOfJson (j : Json) : Svc :=
-  { image := getStr j "image"
+def svcOfJson (k : String) (j : Json) : Svc :=
+  { name := (match j.getObjVal? "name" with | .ok (.str s) => s | _ => k)   -- absent = the map key
+    image := getStr j "image"
     profiles := strsOf j "profiles"
     deps := (objOf j "deps").map fun (k, v) => (k, depOfJson v)
     nets := strsOf j "nets"
@@ -48,8 +49,8 @@ def strMapOf (j : Json) (k : String) : AL String :=
   (objOf j k).filterMap fun (k, v) => match v with | .str s => some (k, s) | _ => none
 
 def projOfJson (j : Json) : Proj :=
-  { services := (objOf j "services").map fun (k, v) => (k, svcOfJson v)
-    disabled := (objOf j "disabled").map fun (k, v) => (k, svcOfJson v)
+  { services := (objOf j "services").map fun (k, v) => (k, svcOfJson k v)
+    disabled := (objOf j "disabled").map fun (k, v) => (k, svcOfJson k v)
     profiles := strsOf j "profiles"
     networks := strMapOf j "networks"
     volumes := strMapOf j "volumes"
@@ -77,7 +78,7 @@ def strs (l : List String) : Json := .arr (l.map Json.str).toArray
 def depToJson (d : Dep) : Json := Json.mkObj [("required", .bool d.required), ("cond", .str d.cond)]
 
 def svcToJson (s : Svc) : Json :=
-  Json.mkObj [("image", .str s.image), ("profiles", strs s.profiles),
+  Json.mkObj [("name", .str s.name), ("image", .str s.image), ("profiles", strs s.profiles),
     ("deps", Json.mkObj (s.deps.map fun (k, d) => (k, depToJson d))),
     ("nets", strs s.nets),
     ("vols", .arr (s.vols.map fun (t, x) => Json.arr #[.str t, .str x]).toArray),
@@ -183,7 +184,10 @@ def stepJson (p : Proj) (o : Op) (real : Option (Option Proj)) : Json :=
     | .err, some none => (true, "exact")
     | _, _ => (false, "none")
   let spec : List String := match real with
-    | some r => if decide (Partition p) then specViolations p o r else ["skipped:not-a-partition"]
+    | some r =>
+      if !decide (Partition p) then ["skipped:not-a-partition"]
+      else if !decide (Named p) then ["skipped:name-differs-from-key"]
+      else specViolations p o r
     | none => []
   Json.mkObj [("agree", .bool agree), ("via", .str via), ("spec", strs spec),
     ("model", match m with | .ok mq => outToJson (.ok (canon mq)) | e => outToJson e)]
